@@ -18,43 +18,44 @@ Example plain_examples :
                        (lit "Set-Cookie", lit "a=b"); (lit "ETag", lit "W/x"); (lit "Server", lit "app")].
 Proof. unfold plain_fields, plain_name. repeat constructor. Qed.
 
-(* ---- F13: HEAD on HTTP/1.1 without Content-Length ---------------------------- *)
+(* ---- the three classes repaired in /repo, as instances ------------------------- *)
 
+(* HEAD on HTTP/1.1 without Content-Length: nothing follows the head
+   (before b49920f: "0\r\n\r\n") *)
 Definition head_req : req := mkReq (lit "1.1") None true false None.
 Definition empty_app : app :=
   mkApp [AStart (PStr (lit "200 OK")) [] None] (KSized 0) [] false None.
 
-Lemma head_chunked_leftover :
+Lemma head_nothing_left :
   let res := run_task sample_cfg head_req empty_app None in
-  exists resp, parse_stream [true] (wire (o_writes res)) = ([resp], chunk_terminator)
-               /\ rs_framing resp = FNoBody
-               /\ In (te_name, chunked_tok) (map (fun f => (lower_ascii (fst f), snd f)) (rs_fields resp)).
-Proof. vm_compute. eexists. split; [reflexivity|]. split; [reflexivity|]. simpl. tauto. Qed.
+  exists resp, parse_stream [true] (wire (o_writes res)) = ([resp], [])
+               /\ rs_framing resp = FNoBody.
+Proof. vm_compute. eexists. split; reflexivity. Qed.
 
-(* ---- F14: error responses to HTTP/1.0 keep-alive requests --------------------- *)
-
+(* error responses to HTTP/1.0 keep-alive requests: Connection: close only
+   (before 766d449 also Connection: Keep-Alive) *)
 Definition ka10_req : req := mkReq (lit "1.0") (Some (lit "Keep-Alive")) false false None.
 Definition failing_app : app := mkApp [ARaise AppException] KGen [] false None.
 
-Lemma error_both_connection_fields :
+Lemma error_single_connection_field :
   let res := run_task sample_cfg ka10_req failing_app None in
   exists resp, parse_stream [false] (wire (o_writes res)) = ([resp], [])
-               /\ In (lit "Connection", lit "close") (rs_fields resp)
-               /\ In (lit "Connection", lit "Keep-Alive") (rs_fields resp)
+               /\ filter (field_is (lit "connection")) (rs_fields resp) = [(lit "Connection", lit "close")]
                /\ o_close res = true.
-Proof. vm_compute. eexists. split; [reflexivity|]. simpl. tauto. Qed.
+Proof. vm_compute. eexists. split; [reflexivity|]. split; reflexivity. Qed.
 
-(* ---- write() and then a file wrapper ----------------------------------------- *)
-
+(* write() and then a file wrapper: the file is iterated and framed like any
+   other iterable (before 5ee3173 it was handed over raw after the head) *)
 Definition write_then_file_app : app :=
   mkApp [AStart (PStr (lit "200 OK")) [] None; AWrite (lit "x")] (KFile true)
         [mkStep [] (SYield (lit "abcdef"))] true None.
 
-Lemma write_then_file_unparsable :
+Lemma write_then_file_framed :
   let res := run_task sample_cfg sample_req write_then_file_app None in
-  o_raw res = None /\ o_handover res = true
-  /\ parse_stream [false] (wire (o_writes res)) = ([], wire (o_writes res)).
-Proof. vm_compute. repeat split; reflexivity. Qed.
+  o_raw res = None /\ o_handover res = false /\ o_closes res = 1%nat
+  /\ exists resp, parse_stream [false] (wire (o_writes res)) = ([resp], [])
+                  /\ rs_framing resp = FChunked /\ rs_body resp = lit "xabcdef".
+Proof. vm_compute. repeat split; try reflexivity. eexists. repeat split; reflexivity. Qed.
 
 (* the decision table's hypotheses are satisfiable: a kept-alive HTTP/1.1 response *)
 Definition cl_app : app :=
